@@ -13,6 +13,7 @@ import (
 	"net/netip"
 	"os"
 	"path/filepath"
+	"strings"
 	"testing"
 
 	"github.com/AdguardTeam/AdGuardDNS/internal/agdcache"
@@ -25,17 +26,29 @@ import (
 // vfsRealGeoNew loads a new geoip.File from the test databases of the tree
 // under test.
 func vfsRealGeoNew(tb testing.TB) *geoip.File {
+	td := vfsRealTestdata()
+
+	return vfsRealGeoFromFiles(tb, filepath.Join(td, "GeoIP2-ISP-Test.mmdb"), filepath.Join(td, "GeoIP2-City-Test.mmdb"))
+}
+
+// vfsRealTestdata is the directory of the test databases of the tree under
+// test.
+func vfsRealTestdata() string {
 	dir := os.Getenv("VERIF_REPO")
 	if dir == "" {
 		dir = "/repo"
 	}
 
-	td := filepath.Join(dir, "internal", "geoip", "testdata")
+	return filepath.Join(dir, "internal", "geoip", "testdata")
+}
+
+// vfsRealGeoFromFiles loads a new geoip.File from the given database files.
+func vfsRealGeoFromFiles(tb testing.TB, asnPath, ctryPath string) *geoip.File {
 	g := geoip.NewFile(&geoip.FileConfig{
 		Logger:         slogutil.NewDiscardLogger(),
 		CacheManager:   agdcache.EmptyManager{},
-		ASNPath:        filepath.Join(td, "GeoIP2-ISP-Test.mmdb"),
-		CountryPath:    filepath.Join(td, "GeoIP2-City-Test.mmdb"),
+		ASNPath:        asnPath,
+		CountryPath:    ctryPath,
 		HostCacheCount: 0,
 		IPCacheCount:   100,
 		AllTopASNs:     geoip.DefaultTopASNs,
@@ -68,11 +81,14 @@ var vfsRealBases = []struct {
 	{netip.MustParseAddr("12.81.92.0"), "", 7018},
 	// not in the databases at all
 	{netip.MustParseAddr("192.0.2.77"), "", 0},
+	// an IPv6 network whose 4th to 7th octets are zero: its /56 block and the
+	// IPv4 /24 block 32.1.23.0 have the same leading octets
+	{netip.MustParseAddr("2001:1700::53"), "", 6730},
 }
 
 // vfsRealASNs are the ASNs used in access lists: the clients' real ones and
 // the top ASNs of their countries.
-var vfsRealASNs = []geoip.ASN{209, 6167, 35908, 1221, 29518, 7922, 7018, 18024, 2856, 2516, 64512}
+var vfsRealASNs = []geoip.ASN{209, 6167, 35908, 1221, 29518, 7922, 7018, 18024, 2856, 2516, 6730, 64512}
 
 // vfsRealBlock is the block the database caches locations by: /24 for IPv4,
 // /56 for IPv6 (own computation).
@@ -94,7 +110,14 @@ type vfsRealWorld struct {
 	// the database caches by block on purpose, so naming another block in
 	// ECS would make the clients' location depend on the order of lookups.
 	ECSOK []int
-	ref   map[netip.Addr]*geoip.Location
+	// Partner maps a block to the block of the OTHER address family that has
+	// the same leading octets (IPv4 a.b.c.0/24 and IPv6 aabb:cc00:0:00xx::/56):
+	// constructed pairs, for which a cache keyed by leading octets alone would
+	// mix the families up.  NBase is the number of blocks that are not
+	// constructed partners.
+	Partner map[int]int
+	NBase   int
+	ref     map[netip.Addr]*geoip.Location
 }
 
 // Loc is the reference location of a (nil = none): what a fresh database that
@@ -115,7 +138,7 @@ func vfsLocEq(a, b *geoip.Location) bool {
 // own location differs from their base's are dropped: the database caches by
 // block on purpose, so for them the statement leaves the location open.
 func vfsRealWorldNew(tb testing.TB) (w *vfsRealWorld) {
-	w = &vfsRealWorld{ref: map[netip.Addr]*geoip.Location{}}
+	w = &vfsRealWorld{ref: map[netip.Addr]*geoip.Location{}, Partner: map[int]int{}}
 	lookup := func(a netip.Addr) *geoip.Location {
 		l, err := vfsRealGeoNew(tb).Data("", a)
 		if err != nil {
@@ -176,6 +199,33 @@ func vfsRealWorldNew(tb testing.TB) (w *vfsRealWorld) {
 		}
 
 		w.Blocks = append(w.Blocks, addrs)
+	}
+
+	// Constructed partners of the other family.
+	w.NBase = len(w.Blocks)
+	for bi := 0; bi < w.NBase; bi++ {
+		base := w.Blocks[bi][0]
+		var partner netip.Addr
+		if base.Is4() {
+			a := base.As4()
+			partner = netip.AddrFrom16([16]byte{a[0], a[1], a[2], 0, 0, 0, 0, 0x42, 0, 0, 0, 0, 0, 0, 0, 1})
+		} else {
+			a := base.As16()
+			if a[3] != 0 || a[4] != 0 || a[5] != 0 || a[6] != 0 {
+				continue
+			}
+
+			partner = netip.AddrFrom4([4]byte{a[0], a[1], a[2], 5})
+		}
+
+		w.ref[partner] = lookup(partner)
+		pi := len(w.Blocks)
+		if vfsLocEq(lookup(vfsRealBlock(partner).Addr()), w.ref[partner]) {
+			w.ECSOK = append(w.ECSOK, pi)
+		}
+
+		w.Blocks = append(w.Blocks, []netip.Addr{partner})
+		w.Partner[bi], w.Partner[pi] = pi, bi
 	}
 
 	return w
@@ -294,6 +344,13 @@ func vfsRealDrawRequest(t *rapid.T, s *vfsStack, w *vfsRealWorld, used []int, bl
 	switch {
 	case block >= 0:
 		bi = block
+	case len(used) > 0 && rapid.IntRange(0, 3).Draw(t, "partnerOfUsed") == 0:
+		// The block of the other family that shares the leading octets with
+		// an earlier client's (or the client's own block if it has none).
+		bi = rapid.SampledFrom(used).Draw(t, "partnerOf")
+		if p, ok := w.Partner[bi]; ok {
+			bi = p
+		}
 	case len(used) > 0 && rapid.IntRange(0, 3).Draw(t, "sameBlock") > 0:
 		bi = rapid.SampledFrom(used).Draw(t, "usedBlock")
 	case rapid.IntRange(0, 2).Draw(t, "focusBlock") > 0:
@@ -353,4 +410,112 @@ func vfsRealECSBlock(w *vfsRealWorld, r *vfsRequest) int {
 	}
 
 	return -1
+}
+
+// ---------------------------------------------------------------------------
+// Refreshes: the stack's geoip.File reads two files that the harness replaces.
+
+// vfsGeoASNVariants / vfsGeoCtryVariants are the test databases that can play
+// the role of the ASN and of the country database: the City database has no
+// ASN data (every ASN is 0), the ISP database no country data.
+var (
+	vfsGeoASNVariants  = []string{"GeoIP2-ISP-Test.mmdb", "GeoIP2-City-Test.mmdb"}
+	vfsGeoCtryVariants = []string{"GeoIP2-City-Test.mmdb", "GeoIP2-Country-Test.mmdb", "GeoIP2-ISP-Test.mmdb"}
+)
+
+// vfsGeoFiles are the two database files of one stack.
+type vfsGeoFiles struct {
+	ASNPath, CtryPath string
+	// ASN, Ctry are the indexes of the data variants currently in the files.
+	ASN, Ctry int
+	version   int
+}
+
+// vfsGeoWithBuildEpoch returns a copy of a MaxMind database whose build epoch
+// differs from the original's by version (1..255): the same data "built at
+// another time".  (All test databases of the repository were built in the same
+// second.)
+func vfsGeoWithBuildEpoch(tb testing.TB, orig []byte, version int) (patched []byte) {
+	const key = "build_epoch"
+	patched = append([]byte{}, orig...)
+	idx := strings.LastIndex(string(patched), key)
+	if idx < 0 {
+		tb.Fatalf("harness: no %s in the database metadata", key)
+	}
+
+	// A control byte with type 0 (extended) and the size, the extended type
+	// (uint64 = 9, stored as 2), then the big-endian value.
+	pos := idx + len(key)
+	size := int(patched[pos] & 0x1f)
+	if patched[pos]>>5 != 0 || patched[pos+1] != 2 || size < 1 || size > 8 {
+		tb.Fatalf("harness: unexpected encoding of %s: % x", key, patched[pos:pos+10])
+	}
+
+	patched[pos+1+size] ^= byte(version)
+
+	return patched
+}
+
+// write replaces one of the files (atomically, by rename) by the given data
+// variant with a build epoch not used before in this case.
+func (g *vfsGeoFiles) write(tb testing.TB, asn bool, variant int) {
+	name, path := vfsGeoCtryVariants[variant], g.CtryPath
+	if asn {
+		name, path = vfsGeoASNVariants[variant], g.ASNPath
+	}
+
+	data, err := os.ReadFile(filepath.Join(vfsRealTestdata(), name))
+	if err != nil {
+		tb.Fatalf("harness: %v", err)
+	}
+
+	g.version++
+	if g.version > 255 {
+		tb.Fatalf("harness: too many database versions in one case")
+	}
+
+	tmp := path + ".tmp"
+	if err = os.WriteFile(tmp, vfsGeoWithBuildEpoch(tb, data, g.version), 0o600); err != nil {
+		tb.Fatalf("harness: %v", err)
+	}
+
+	if err = os.Rename(tmp, path); err != nil {
+		tb.Fatalf("harness: %v", err)
+	}
+
+	if asn {
+		g.ASN = variant
+	} else {
+		g.Ctry = variant
+	}
+}
+
+// vfsGeoRef is the reference: what a freshly constructed geoip.File over the
+// pristine test databases of the given variants, asked this one question,
+// reports.
+type vfsGeoRef struct {
+	tb   testing.TB
+	memo map[string]*geoip.Location
+}
+
+func (ref *vfsGeoRef) Loc(asnVariant, ctryVariant int, a netip.Addr) *geoip.Location {
+	k := fmt.Sprintf("%d|%d|%s", asnVariant, ctryVariant, a)
+	if l, ok := ref.memo[k]; ok {
+		return l
+	}
+
+	td := vfsRealTestdata()
+	g := vfsRealGeoFromFiles(ref.tb, filepath.Join(td, vfsGeoASNVariants[asnVariant]), filepath.Join(td, vfsGeoCtryVariants[ctryVariant]))
+	l, err := g.Data("", a)
+	if err != nil {
+		ref.tb.Fatalf("harness: reference lookup of %s: %v", a, err)
+	}
+
+	if l != nil {
+		l = &geoip.Location{Country: l.Country, ASN: l.ASN}
+	}
+
+	ref.memo[k] = l
+
+	return l
 }
